@@ -62,6 +62,10 @@ func RegisterSentinels(in *Interp) {
 		}
 		return val.V{}, GoErr("sentinel")
 	})
+	nat(in, "raw-panic-go!", func(in *Interp, a []val.V) (val.V, *Thrown) {
+		// bound without the reflective binder: arguments are not checked, the panic is not converted
+		return val.V{}, &Thrown{Go: "raw-sentinel", Raw: true}
+	})
 	nat(in, "panic-val!", func(in *Interp, a []val.V) (val.V, *Thrown) {
 		if len(a) != 1 {
 			return val.V{}, bad
@@ -356,4 +360,67 @@ func installNatives(in *Interp) {
 	}
 	natMacro(in, "->", thread(true))
 	natMacro(in, "->>", thread(false))
+}
+
+// AtomCell is the state behind an atom value of the reference interpreter.
+type AtomCell struct{ V val.V }
+
+// RegisterAtoms adds atom, deref (of atoms), reset! and swap! for single-threaded programs. An update
+// function that re-sets the atom it is applied to and then returns normally is not defined here (the
+// implementation re-applies it).
+func RegisterAtoms(in *Interp) {
+	cell := func(v val.V) *AtomCell {
+		if v.K != val.Atom {
+			return nil
+		}
+		c, _ := v.F.(*AtomCell)
+		return c
+	}
+	nat(in, "atom", func(in *Interp, a []val.V) (val.V, *Thrown) {
+		if len(a) != 1 {
+			return val.V{}, bad
+		}
+		return val.V{K: val.Atom, F: &AtomCell{V: a[0]}}, nil
+	})
+	nat(in, "deref", func(in *Interp, a []val.V) (val.V, *Thrown) {
+		if len(a) != 1 {
+			return val.V{}, bad
+		}
+		c := cell(a[0])
+		if c == nil {
+			in.Unspecified("deref of a non-atom")
+		}
+		return c.V, nil
+	})
+	nat(in, "reset!", func(in *Interp, a []val.V) (val.V, *Thrown) {
+		if len(a) != 2 {
+			return val.V{}, bad
+		}
+		c := cell(a[0])
+		if c == nil {
+			return val.V{}, bad
+		}
+		c.V = a[1]
+		return a[1], nil
+	})
+	nat(in, "swap!", func(in *Interp, a []val.V) (val.V, *Thrown) {
+		if len(a) < 2 {
+			return val.V{}, bad
+		}
+		c := cell(a[0])
+		if c == nil {
+			return val.V{}, bad
+		}
+		before := c
+		old := c.V
+		v, t := in.Apply(a[1], append([]val.V{old}, a[2:]...), false)
+		if t != nil {
+			return val.V{}, t // the atom keeps whatever it holds now
+		}
+		if !val.Eq(before.V, old) {
+			in.Unspecified("update function changed the atom it is applied to")
+		}
+		c.V = v
+		return v, nil
+	})
 }
